@@ -111,6 +111,46 @@ pub struct ElfSectionIter<'a> {
     _phantom_data: PhantomData<&'a ()>,
 }
 
+#[cfg(multiboot2_verif)]
+impl ElfSectionIter<'_> {
+    /// Verification hook (only with `--cfg multiboot2_verif`): builds the
+    /// iterator from its raw parts, so that the section walk can be
+    /// model-checked from an arbitrary iterator state.
+    ///
+    /// # Safety
+    /// The caller vouches for the pointers exactly as
+    /// [`ElfSectionsTag::sections`] does.
+    #[doc(hidden)]
+    #[must_use]
+    pub const unsafe fn __verif_from_parts(
+        current_section: *const u8,
+        remaining_sections: u32,
+        entry_size: u32,
+        string_section: *const u8,
+    ) -> Self {
+        Self {
+            current_section,
+            remaining_sections,
+            entry_size,
+            string_section,
+            _phantom_data: PhantomData,
+        }
+    }
+
+    /// Verification hook: the raw iterator state
+    /// `(current_section, remaining_sections, entry_size, string_section)`.
+    #[doc(hidden)]
+    #[must_use]
+    pub const fn __verif_parts(&self) -> (*const u8, u32, u32, *const u8) {
+        (
+            self.current_section,
+            self.remaining_sections,
+            self.entry_size,
+            self.string_section,
+        )
+    }
+}
+
 impl<'a> Iterator for ElfSectionIter<'a> {
     type Item = ElfSection<'a>;
 
